@@ -25,7 +25,7 @@ ASSUMPTIONS = [
     "results are compared byte for byte; no reference model is involved",
     "the worker process is already warm from earlier cases: 'before the history' means 'first time in this case'",
 ]
-HEALTH = {"history_with_failure": 0.12, "fresh_process": 16}
+HEALTH = {"history_with_failure": 0.08, "fresh_process": 16}
 FLAKY_IS_VIOLATION = True      # a leak changes the process: the same history run twice in one process need not fail twice
 EXHAUSTIVE = {}
 
@@ -63,6 +63,17 @@ def enumerated(tier, seed):
         for qs in ([f], [e], [g], [h], [g, f, e]):
             yield dict(p=p, qs=qs, fresh=False)
             yield dict(p=p, qs=qs, fresh=True, history_first=True, hashseeds=[0])
+    # one-line programs, accepted and rejected ones, one per operand class: every ordered pair (history Q, then P),
+    # P judged against a fresh interpreter - a table, generator or flag that one operand class leaves behind for
+    # another shows here
+    pool = [" PSHS A,B\n", " PSHU A,B\n", " PULS X,U\n", " PULU X,S\n", " TFR A,B\n", " EXG X,Y\n", " LDA #1\n", " LDX #$1234\n", " LDA ,X+\n",
+            " LDB X\n", " LDA [,Y]\n", " LEAX 5,U\n", " LDA A,X\n", " JMP [$1000]\n", " FCB 1,2\n", " FDB 1,2\n", " FCC /a/\n", " LDA <$10\n",
+            " LDA 1,PCR\n", " PSHS A,S\n", " PSHU U\n", " PULS S\n", " PULU X,U\n", " TFR A,X\n", " EXG D,B\n", " LDA #256\n", " STA #1\n",
+            " LDA ,Z\n", " LDA [,X+]\n", " LEAX $10\n", " FCB 256\n", " LDA 5,PC\n", " LDB S\n", " LDA [B,U]\n"]
+    for q in pool:
+        for p in pool:
+            if p != q:
+                yield dict(p=[p], qs=[[q]], fresh=True, history_first=True, hashseeds=[0])
     # definitions that depend on each other in every order: the result must not depend on hashing (fresh processes
     # under ten hash seeds)
     defs = ["SCREEN EQU $0400\n", "WIDTH EQU 32\n", "ROW1 EQU SCREEN+WIDTH\n", "ROW2 EQU ROW1+WIDTH\n", "ROW3 EQU ROW2+WIDTH\n",
